@@ -156,15 +156,19 @@ Definition cx_L6 : seg := nd "drop_table_statement" [kw "DROP"; kw "TABLE"; leaf
 Lemma cx_L6_escapes : analyze env0 false cx_L6 = Err EIndex /\ escape_free cx_L6 = false.
 Proof. split; vm_compute; reflexivity. Qed.
 
-(** L7 (merge.py, list(holder.write)[0] and segments[i + 1]) *)
+(** L7 (merge.py, segments[i + 1]): a bracketed USING source as the last child *)
 Definition cref (n : string) : seg := nd "column_reference" [leaf "naked_identifier" n].
+Definition cx_L7b : seg := nd "merge_statement" [kw "MERGE"; kw "INTO"; tref "t"; kw "USING"; nd "bracketed" []].
+Lemma cx_L7_escapes : analyze env0 false cx_L7b = Err EIndex /\ escape_free cx_L7b = false.
+Proof. split; vm_compute; reflexivity. Qed.
+
+(** the former condition L7a (every merge_match needs a recorded target; list(holder.write)[0] in merge.py) is gone
+    with fix F11: the tree that used to end in IndexError is escape-free and analyses to a holder *)
 Definition cx_L7a : seg :=
   nd "merge_statement" [kw "MERGE"; nd "merge_match" [nd "merge_when_matched_clause" [nd "merge_update_clause"
      [nd "set_clause_list" [nd "set_clause" [cref "a"; cref "b"]]]]]].
-Definition cx_L7b : seg := nd "merge_statement" [kw "MERGE"; kw "INTO"; tref "t"; kw "USING"; nd "bracketed" []].
-Lemma cx_L7_escapes : analyze env0 false cx_L7a = Err EIndex /\ escape_free cx_L7a = false /\
-                      analyze env0 false cx_L7b = Err EIndex /\ escape_free cx_L7b = false.
-Proof. repeat split; vm_compute; reflexivity. Qed.
+Lemma cx_L7a_repaired : (exists g, analyze env0 false cx_L7a = Ok g) /\ escape_free cx_L7a = true.
+Proof. split; [eexists|]; vm_compute; reflexivity. Qed.
 
 (* ================================================================== *)
 (** * non-vacuity *)
@@ -178,10 +182,20 @@ Proof. repeat split; vm_compute; reflexivity. Qed.
 Example c10_total_on_merge : exists g, analyze env0 false w_merge_values = Ok g.
 Proof. eexists. vm_compute. reflexivity. Qed.
 
-(** NOT PROVED (and not assumed): the same without the [EValue] disjunct.  What is missing is an invariant saying that
-    every has_column edge of a holder with a single write target ends in a column with exactly one parent; the
-    two-parent case arises in [add_write_column] when the first written dataset of a delegated holder differs from the
-    parent of the inherited write columns (several written datasets). *)
+(** NOT PROVED (and not assumed): the same without the [EValue] disjunct.
+    [EValue] has exactly two sources, both "col_parent c = None" for a column c taken from a has_column edge of the
+    holder: (A) end_of_query_cleanup, target column = nth element of write_columns g (edges out of the single written
+    dataset); (B) replace_wildcard, source columns = get_table_columns g st for a SubQuery st.  All other callers of
+    add_column_lineage build the target with exactly one parent (proved inside [upd_col_ok], [merge_matched_ok], ...).
+    A has_column edge NData d -> NCol c with two parents is created only by [add_write_column] (init_holder with
+    inherited write columns; provider columns in XCreateInsert) when the first written dataset of the holder differs
+    from the parent the column already has, hence only in a holder with two or more written datasets.  Needed invariant:
+    the source d of such an edge never becomes (A) the single written dataset of a holder that passes the
+    "exactly one written dataset" check of end_of_query_cleanup, nor (B) a SubQuery read through a wildcard.  Written
+    Table / Path nodes never lose their write tag ([GI], third clause), so only a written SubQuery can drop out; for
+    that it must also be read in its own CTE holder, which needs raw q = raw b for a bracket b strictly inside q although q
+    contains a non-empty INSERT / UPDATE keyword outside b (SELECT .. INTO only yields SQLLineageException there).  So
+    the invariant depends on raw texts, not only on shapes; it is believed to hold, no counterexample was found. *)
 Definition c10_total_on_all_trees_statement : Prop := forall e silent t,
   escape_free t = true ->
   match analyze e silent t with Ok _ => True | Err k => allowed_err k = true end.
